@@ -5,38 +5,38 @@ ENV = "GOFLAGS=-mod=mod GOPROXY=off GOSUMDB=off GOTOOLCHAIN=local"
 checks = {
  "C05": dict(cat="exploration", ref="§7 C05", technique="deterministic simulation: real ATP client and server over a simulated fragmenting/coalescing transport under a seeded statement-level scheduler; per-call comparison with an in-process reference",
    text="Seeded search over schedules, transport chunkings and generated plugin schemas/inputs; every Execute result is compared with CallStep on an independent copy; a clean batch is evidence, not proof.",
-   note="Trusted: the AST rewriter preserves semantics (the repo's own suite passes on the instrumented copy), testing/synctest's fake clock and quiescence detection, fxamacker/cbor. The reference call sees the CBOR-normalised input. Legacy v1 framing is exercised against a stub v1 plugin (batch c05.v1) that answers with the in-process results of a reference copy."),
+   note="Trusted: the AST rewriter preserves semantics (the repo's own suite passes on the instrumented copy), testing/synctest's fake clock and quiescence detection, fxamacker/cbor. The reference call sees the CBOR-normalised input. Legacy v1 framing is exercised against a stub v1 plugin (batch c05.v1) that answers with the in-process results of a reference copy and may exit right after its last answer. The transport may deliver the last bytes together with io.EOF. A call that reuses the run ID of a call in flight may be refused; it must not disturb the other call."),
  "C06": dict(cat="exploration", ref="§7 C06", technique="deterministic simulation: seeded and delay-bounded scheduling (exhaustive single-delay sweep over every statement of client and server) with exact deadlock detection on a fake clock",
-   text="Random/sticky/PCT schedules plus a sweep that holds back every yield site of atp/client.go and atp/server.go singly (occurrences 1-3) on canonical session histories; a hang is decided exactly (all goroutines durably blocked, no timer pending).",
-   note="Trusted: rewriter, synctest, shim mutex semantics. The peer is the SDK's own server; the harness drains signal channels as the API asks. Scheduling delays are logical: no fake time passes while a goroutine is held."),
+   text="Random/sticky/PCT schedules plus a sweep that holds back every yield site of atp/client.go and atp/server.go singly (occurrences 1-3) on canonical session histories; a hang is decided exactly (all goroutines durably blocked, no timer pending). sync.WaitGroup is a scheduler-visible shim with the real misuse checks (a released waiter runs when the scheduler picks it). Batch c06.race repeats the mixed sessions in a -race build: an SDK data race on a map is process death.",
+   note="Trusted: rewriter, synctest, shim mutex semantics. The peer is the SDK's own server or (c06.peer*) a scripted protocol-conforming v3/v1 peer that also emits signals (also late ones), non-fatal errors and unknown message IDs; the harness drains signal channels as the API asks. Scheduling delays are logical: no fake time passes while a goroutine is held."),
 }
 checks["C07"] = dict(cat="fault_enumeration", ref="§7 C07", engine="server", technique="deterministic simulation with crash-point enumeration: real RunATPServer vs a scripted hostile client; EOF / read error / garbage at enumerated byte offsets of the client stream crossed with seeded schedules and step behaviours; reference-decoder model of accepted runs",
-   text="Grammar-drawn client scripts (valid and invalid messages, arbitrary CBOR, junk) against the real server with generated plugins whose steps succeed, fail, panic or are slow; base scripts are re-run with a fault at every message boundary +-1 and a stride (quick) or at every byte (thorough); the oracle counts terminal messages per run ID against what a reference decoder accepts from the bytes actually delivered, and decides hangs exactly on the fake clock.",
-   note="Trusted: rewriter, synctest, cbor library (also used by the reference decoder), the contract model of 'accepted work-start' stated in DESIGN §7 C07. A panic in a server goroutine is treated as process death. plugin.Run's os.Exit paths and real OS pipes are not simulated.")
-checks["C08"] = dict(cat="fault_enumeration", ref="§7 C08", engine="client", technique="deterministic simulation with crash-point enumeration: real ATP client vs a scripted v3/v1 server; EOF / read error / garbage / stall-then-EOF at enumerated byte offsets of the server stream, client writes failing independently, crossed with seeded schedules; reference-decoder oracle for fabricated results, exact hang detection",
+   text="Grammar-drawn client scripts (valid and invalid messages, arbitrary CBOR, junk) against the real server with generated plugins whose steps succeed, fail, panic or are slow; base scripts are re-run with a fault at every message boundary +-1 and a stride (quick) or at every byte (thorough); the oracle counts terminal messages per run ID against what a reference decoder accepts from the bytes actually delivered, and decides hangs exactly on the fake clock. Batch c07.race repeats the hostile grammar in a -race build (happens-before-neutral scheduler): an SDK data race on a map is the runtime's fatal 'concurrent map read and map write', i.e. process death.",
+   note="Trusted: rewriter, synctest, cbor library (also used by the reference decoder), Go's race detector for c07.race, the contract model of 'accepted work-start' stated in DESIGN §7 C07. A panic in a server goroutine is treated as process death. plugin.Run's os.Exit paths and real OS pipes are not simulated.")
+checks["C08"] = dict(cat="fault_enumeration", ref="§7 C08", engine="client", technique="deterministic simulation with crash-point enumeration: real ATP client vs a scripted v3/v1 server; EOF / read error / garbage / stall-then-EOF / single flipped byte (stream stays open) at enumerated byte offsets of the server stream, client writes failing independently, crossed with seeded schedules; reference-decoder oracle for fabricated results, exact hang detection",
    text="Generated transcripts (hello with a real self-described schema, work-done, signals, non-fatal/step-fatal/server-fatal errors, unknown IDs, unsupported versions, a schema that does not unserialize) are played reactively by a scripted server; the base transcript is run fault-free and then re-run with each fault kind at every message boundary +-1 and a stride (quick) or every byte (thorough). A success is legitimate only if a well-formed work-done for that run is present in the bytes actually delivered; every call and Close must return (decided exactly on the fake clock).",
    note="Trusted: rewriter, synctest, cbor (also used by the reference decoder). Premise enforced: the server stream ends, errors or garbles; runs where only the client's writes failed while the server stream stayed intact (or was still stalled when Close's 5 s wait expired) are excluded and counted in the evidence.")
-checks["C10"] = dict(cat="exploration", ref="§7 C10", engine="hello", technique="deterministic simulation with fault injection into the hello message: structural mutations (delete/retype/rename/duplicate/re-point/null/extreme) at tape-chosen or systematically swept nodes of a generated plugin description delivered over a fragmenting transport to the real Client.ReadSchema, followed by first-use exercise of whatever schema is accepted",
-   text="Seeded search over single and double mutations of generated descriptions plus grammar-free random trees; sweep batches apply every mutation kind at every node (thorough) of base descriptions. Violation = a panic in ReadSchema or in any Unserialize/Validate/Serialize/ValidateCompatibility/SelfSerialize on an accepted schema; a fatal stack overflow kills the worker and is attributed to the run by the driver.",
-   note="Trusted: rewriter, synctest. The schedule dimension is degenerate here (one engine goroutine); what is explored is the fault space. UnserializeScope called directly is not covered. Exercise values are generated valid/invalid inputs plus a fixed palette of decoder-producible shapes; this is first-use smoke exercise, not C04's full input domain.")
+checks["C10"] = dict(cat="exploration", ref="§7 C10", engine="hello", technique="deterministic simulation with fault injection into the hello message: structural mutations (delete/retype/rename/re-key/duplicate/re-point/null/extreme) at tape-chosen or systematically swept nodes of a generated plugin description delivered over a fragmenting transport to the real Client.ReadSchema, followed by first-use exercise of whatever schema is accepted",
+   text="Seeded search over single and double mutations of generated descriptions plus grammar-free random trees; sweep batches apply every mutation kind at every node (thorough) of base descriptions. Batch c10.scope hands mutated and unmutated scope descriptions to schema.UnserializeScope directly (loading = UnserializeScope + ApplySelf + ValidateReferences). Violation = a panic in ReadSchema / while loading or in any Unserialize/Validate/Serialize/ValidateCompatibility/SelfSerialize on an accepted schema; a fatal stack overflow kills the worker and is attributed to the run by the driver.",
+   note="Known finding (not repaired): ValidateCompatibility has no cycle guard - a self-referencing schema compared with itself overflows the stack (fatal); the driver names fatal stack overflows by the recursing SDK methods so that only this one is matched. Trusted: rewriter, synctest. The schedule dimension is degenerate here (one engine goroutine); what is explored is the fault space. Exercise values are generated valid/invalid inputs plus a fixed palette of decoder-producible shapes; this is first-use smoke exercise, not C04's full input domain.")
 checks["C09"] = dict(cat="exploration", ref="§7 C09", engine="session", technique="deterministic simulation (replica agreement): the plugin's schema and the engine's copy rebuilt from the hello message carried over a simulated fragmenting transport are compared inside seeded client/server sessions",
    text="RESTRICTED to the hello clause of C09: for generated plugin schemas the copy rebuilt by Client.ReadSchema must describe itself identically to the plugin's own copy, be a describe/rebuild/describe fixed point, and agree with the plugin's copy on every input, output and signal payload of the simulated session.",
    note="Not decided: the direct (no transport) and YAML fixed-point clauses and behavioural equality on inputs never sent in a session - pure clauses outside this technique. Trusted: rewriter, synctest, cbor.")
 checks["C11"] = dict(cat="exploration", ref="§7 C11", engine="steps", technique="deterministic simulation: seeded and delay-bounded statement-level scheduling of concurrent CallStep/CallSignal goroutines on one CallableSchema, compared call by call with a sequential reference on a fresh copy",
-   text="2-6 goroutines issue step and signal calls for 1-3 run IDs (valid/invalid inputs, unknown IDs, handler misbehaviour, with/without initializer) under random/sticky/PCT schedules and a sweep that holds every statement of schema/step.go, schema.go and signal.go singly (and sampled pairs); oracles: initializer at most once per run ID, all handlers of a run see the same step data, distinct runs distinct data, handler invoked exactly as often and with the same argument as alone, same (outputID, data, error type) as alone, no panic.",
+   text="2-6 goroutines issue step and signal calls for 1-3 run IDs (valid/invalid inputs, unknown IDs, handler misbehaviour, with/without initializer) under random/sticky/PCT schedules and a sweep that holds every statement of schema/step.go, schema.go and signal.go singly (and sampled pairs); oracles: initializer at most once per run ID, all handlers of a run see the same step data, distinct runs distinct data, handler invoked exactly as often and with the same argument as alone, same (outputID, data, error type) as alone, no panic; plus plan-derived expectations that do not depend on the library: unknown step -> BadArgumentError and no handler call, undeclared output ID -> InvalidOutputError, non-conforming data (also for an output without properties) -> error, conforming data -> that output.",
    note="Trusted: rewriter, synctest, shim mutex. The typed-error and input clauses are checked as the reference oracle of the same runs (the call made alone on a fresh copy); error text is not compared, only the outermost SDK error type.")
 checks["C12"] = dict(cat="exploration", ref="§7 C12", engine="pure", technique="deterministic simulation of the runtime's map iteration order and of call histories: every range-over-map / MapKeys site of the SDK is routed through a seam whose order is drawn from the seed; histories of operations on one schema instance are compared with fresh instances",
-   text="Generated scope schemas receive tape-drawn histories of 1-30 Unserialize/Validate/Serialize/ValidateCompatibility calls; each call is repeated under natural, drawn, reversed and rotated iteration orders (same verdict, equal results), its argument is deep-compared before/after, and the used instance is compared with a freshly built one (verdict, result, self-description).",
+   text="Generated scope schemas receive tape-drawn histories of 1-30 Unserialize/Validate/Serialize/ValidateCompatibility calls; each call is repeated under natural, drawn, reversed and rotated iteration orders (same verdict, equal results), its argument (also non-canonical any-typed values: int, uint8, float32, typed slices) is deep-compared before/after, and the used instance is compared with a freshly built one (verdict, result, self-description).",
    note="Trusted: the rewriter's map-order seam covers all 53 range-over-map and 8 MapKeys sites (counted in the evidence; maps inside third-party libraries are not reordered). Single goroutine; no scheduler is involved. Error text is not compared.")
 checks["C15"] = dict(cat="exploration", ref="§7 C15", engine="pure", technique="deterministic simulation of map iteration order on ValidateCompatibility between generated consumer/producer schema pairs",
    text="RESTRICTED: decided = the verdict of consumer.ValidateCompatibility(producer) does not depend on map iteration order (natural, drawn, reversed, rotated orders on identical, rebuilt, single-feature-mutated and unrelated producers) and a verdict is returned (no panic). Reflexivity, compatibility with a schema rebuilt from its own description, and the must-reject rules are evaluated on the same pairs as side oracles.",
-   note="Not decided: termination on recursive schema pairs (a stack overflow there is a function of the pair alone; recursive recipes are excluded from the generator). Must-reject expectations are only attached to mutations of the root object. Trusted: map-order seam coverage as for C12.")
+   note="Not decided: termination on recursive schema pairs (a stack overflow there is a function of the pair alone; recursive recipes are excluded from the generator). Must-reject expectations are attached to mutations of the root object and of every object reachable from it (references, one-of members, list items, map keys/values); disjoint ranges cover int, float, string and map bounds with every nil/non-nil combination. Trusted: map-order seam coverage as for C12.")
 checks["C13"] = dict(cat="exploration", ref="§7 C13", engine="race", technique="deterministic simulation under the race detector: seeded statement-level schedules of 2-16 goroutines on one brand-new schema, with a scheduler whose hand-off is hidden from the detector (one-way happens-before edge to the scheduler only) and shims that keep real mutex edges; result equality against isolated calls",
    text="Trials race first-use paths (unit parser caches, lazily decoded defaults, sub-object default propagation, references) of freshly built, freshly rebuilt and struct-mapped schemas, of the package-level unit definitions (one trial per worker process) and of the step-call and ATP session simulations, in a -race build; a violation is a race report whose two accesses are owned by SDK functions, a result that differs from the same call in isolation, or a panic.",
    note="Trusted: Go's race detector; the happens-before neutrality of the scheduler is self-tested (TestDetectorStillSees: an unsynchronised lazy cache is reported, the same cache under the shim mutex is not). Seam choices come from per-goroutine PRNGs in these trials so that the shared tape is not a hidden synchronisation point. The detector reports a pair of stacks once per process; attribution uses the report counter around each trial.")
 checks["C19"] = dict(cat="exploration", ref="§7 C19", engine="codegen", technique="deterministic simulation of map iteration order in the code generator run as a subprocess: the generator built from the working tree gets a seam on its range-over-map sites, and each generated schema document is processed under natural, drawn, reversed and runtime orders, with and without the ignore argument",
    text="Generated YAML schema documents (0-6 objects x 0-6 properties, every type ID, references) are fed to the real generator binary in a fresh directory; exit status and stderr decide totality for both argument forms, byte equality across iteration orders decides determinism, and the parsed output is compared with a model (one struct per non-ignored object, one JSON-tagged typed field per property).",
-   note="Trusted: the local map-order seam (2 range sites in gen.go, counted in the evidence), go/parser. Known finding (not repaired): type_id map is emitted as the Go keyword map and makes the generator panic; documents with map-typed properties are confined to the c19.mapkw batch so the rest of the space stays explored.")
+   note="Trusted: the local map-order seam (2 range sites in gen.go, counted in the evidence), go/parser. Object names include valid identifiers that are type IDs (integer, float, string). Known finding (not repaired): type_id map is emitted as the Go keyword map and makes the generator panic; documents with map-typed properties are confined to the c19.mapkw batch so the rest of the space stays explored.")
 not_yet = {
 }
 na = {
